@@ -236,6 +236,219 @@ admission_harness!(c06_admission_first_null, false, true);
 admission_harness!(c06_admission_second_null, true, false);
 admission_harness!(c06_admission_both_null, false, false);
 
+// ================================================================================================
+// All-stack variants (registered).  The harnesses above keep the environment's answer and the column list in
+// heap containers; CBMC then treats every variant of every element as possible and explores all of them (they do
+// not conclude).  Here every container the code under test only *reads* has its buffer in a stack array (never
+// dropped or grown - everything is ManuallyDrop), so the discriminants are constants; and no lazily initialised
+// static is involved (writing a `static mut` before allocating makes CBMC report invalid pointers, DESIGN §6.2).
+
+fn column_on(pname: &String, group_index: usize, column_type: ValueType, nullable: bool, default_value: Option<Value>) -> ColumnDefinition {
+    let mut options = ColumnOptions::new();
+    options.nullable = nullable;
+    options.default_value = default_value;
+    ColumnDefinition::with_options(ColumnParsing::Regex(RegexResultReference { pattern_name: pname.clone(), group_index }), "c", column_type, options)
+}
+
+/// The environment's answer for one line: `$nfields` split fields (concrete count, symbolic bytes) under the
+/// pattern `$pname` when `$matched`; no JSON document.
+macro_rules! split_input {
+    ($fstore:ident, $mstore:ident, $input:ident, $pname:expr, $matched:expr, $nfields:expr, $f0:expr, $f1:expr, $f2:expr) => {
+        let mut $fstore = ManuallyDrop::new([$f0, $f1, $f2]);
+        let fields: Vec<&str> = unsafe { Vec::from_raw_parts($fstore.as_mut_ptr(), $nfields, $nfields) };
+        let mut $mstore = ManuallyDrop::new([($pname, RegexResult::Split(fields))]);
+        let $input = ManuallyDrop::new(ParsingInput {
+            regex_results: unsafe { ShimMap::from_raw_entries($mstore.as_mut_ptr(), if $matched { 1 } else { 0 }) },
+            json_value: serde_json::Value::Null,
+        });
+    };
+}
+
+/// a symbolic field of 0..1 bytes in a caller-owned buffer (alphabet: digits, sign, space, a letter).  One byte:
+/// these harnesses run with unwind 2 (the digit loop of i64::from_str may run once); with unwind 4 the drop glue
+/// of Value is unrolled 4 levels at every drop site and the same harness does not conclude in 25 min.
+macro_rules! stack_field {
+    ($buf:ident, $f:ident, $len:ident, $b0:ident) => {
+        let $len: usize = kani::any();
+        kani::assume($len <= 1);
+        let $b0: u8 = kani::any();
+        kani::assume($b0 == b'-' || $b0 == b'+' || $b0 == b' ' || $b0 == b'x' || ($b0 >= b'0' && $b0 <= b'9'));
+        let $buf = [$b0];
+        let $f: &str = unsafe { std::str::from_utf8_unchecked(&$buf[..$len]) };
+    };
+}
+
+// C01, INT column on split field 1: one harness per (pattern matched?, field present?, DEFAULT?) shape
+macro_rules! c01_int_harness {
+    ($name:ident, $matched:expr, $nfields:expr, $has_default:expr) => {
+        extraction_proof! {
+            #[kani::unwind(2)]
+            fn $name() {
+                stack_field!(buf, field, len, b0);
+                let d: i64 = kani::any();
+                let pname = String::from("p");
+                split_input!(fstore, mstore, input, &pname, $matched, $nfields, "whole line", field, "");
+                let column = ManuallyDrop::new(column_on(&pname, 1, ValueType::Int, true, if $has_default { Some(Value::Int(d)) } else { None }));
+                let value = ManuallyDrop::new(column.parsing.extract(&column, &input));
+                let took_part = $matched && $nfields >= 2;
+                let literal = ref_int(len, b0, 0);
+                if !took_part {
+                    if $has_default { assert!(v_int(&value) == Some(d), "C01 DEFAULT when the pattern or group did not take part"); }
+                    else { assert!(value.is_null(), "C01 NULL when the pattern or group did not take part"); }
+                } else {
+                    match literal {
+                        Some(v) => assert!(v_int(&value) == Some(v), "C01 the column holds exactly the literal of the referenced field"),
+                        None => assert!(value.is_null(), "C01 NULL when the text is not a literal of the type (DEFAULT is not used)"),
+                    }
+                }
+                kani::cover!(!took_part || literal.is_none(), "c01 int: no-literal outcome reachable");
+                kani::cover!(!took_part || literal == Some(7), "c01 int: literal outcome reachable");
+            }
+        }
+    };
+}
+c01_int_harness!(c01_int_field_default, true, 2, true);
+c01_int_harness!(c01_int_field_nodefault, true, 2, false);
+c01_int_harness!(c01_int_nofield_default, true, 1, true);
+c01_int_harness!(c01_int_nofield_nodefault, true, 1, false);
+c01_int_harness!(c01_int_unmatched_default, false, 2, true);
+c01_int_harness!(c01_int_unmatched_nodefault, false, 2, false);
+
+// C01, BOOLEAN means the group's existence (whatever the field holds)
+macro_rules! c01_bool_harness {
+    ($name:ident, $nfields:expr) => {
+        extraction_proof! {
+            #[kani::unwind(2)]
+            fn $name() {
+                stack_field!(buf, field, len, b0);
+                let pname = String::from("p");
+                split_input!(fstore, mstore, input, &pname, true, $nfields, "whole line", field, "");
+                let column = ManuallyDrop::new(column_on(&pname, 1, ValueType::Bool, true, None));
+                let value = ManuallyDrop::new(column.parsing.extract(&column, &input));
+                assert!(v_bool(&value) == Some($nfields >= 2), "C01 BOOLEAN means the group's existence");
+                kani::cover!(true, "c01 bool: end reachable");
+            }
+        }
+    };
+}
+c01_bool_harness!(c01_bool_field, 2);
+c01_bool_harness!(c01_bool_nofield, 1);
+
+// C01, TEXT holds exactly the field's text; a value is never taken from another field (column on field g of 2)
+macro_rules! c01_text_harness {
+    ($name:ident, $g:expr) => {
+        extraction_proof! {
+            #[kani::unwind(2)]
+            fn $name() {
+                stack_field!(buf1, f1, l1, a0);
+                stack_field!(buf2, f2, l2, c0);
+                let pname = String::from("p");
+                split_input!(fstore, mstore, input, &pname, true, 3, "whole line", f1, f2);
+                let column = ManuallyDrop::new(column_on(&pname, $g, ValueType::String, true, None));
+                let value = ManuallyDrop::new(column.parsing.extract(&column, &input));
+                let (el, eb) = if $g == 1 { (l1, a0) } else { (l2, c0) };
+                let ok = if let Value::String(s) = &*value { s.len() == el && (el == 0 || s.as_bytes()[0] == eb) } else { false };
+                assert!(ok, "C01 a TEXT column holds exactly the text of its own field");
+                kani::cover!(l1 == 1 && l2 == 1 && a0 != c0, "c01 text: two different fields reachable");
+            }
+        }
+    };
+}
+c01_text_harness!(c01_text_field1_of_2, 1);
+c01_text_harness!(c01_text_field2_of_2, 2);
+
+macro_rules! c01_own_field_harness {
+    ($name:ident, $g:expr) => {
+        extraction_proof! {
+            #[kani::unwind(2)]
+            fn $name() {
+                stack_field!(buf1, f1, l1, a0);
+                stack_field!(buf2, f2, l2, c0);
+                let pname = String::from("p");
+                split_input!(fstore, mstore, input, &pname, true, 3, "whole line", f1, f2);
+                let column = ManuallyDrop::new(column_on(&pname, $g, ValueType::Int, true, None));
+                let value = ManuallyDrop::new(column.parsing.extract(&column, &input));
+                let expected = if $g == 1 { ref_int(l1, a0, 0) } else { ref_int(l2, c0, 0) };
+                match expected {
+                    Some(v) => assert!(v_int(&value) == Some(v), "C01 each column holds its own field"),
+                    None => assert!(value.is_null(), "C01 each column holds its own field"),
+                }
+                kani::cover!(expected.is_some() && ref_int(l1, a0, 0) != ref_int(l2, c0, 0), "c01 own field: fields differ reachable");
+            }
+        }
+    };
+}
+c01_own_field_harness!(c01_int_field1_of_2, 1);
+c01_own_field_harness!(c01_int_field2_of_2, 2);
+
+// C01, one-element array column: NULL when its element is NULL, else the one-element array
+macro_rules! c01_array1_harness {
+    ($name:ident, $nfields:expr) => {
+        extraction_proof! {
+            #[kani::unwind(2)]
+            fn $name() {
+                stack_field!(buf, field, len, b0);
+                let pname = String::from("p");
+                split_input!(fstore, mstore, input, &pname, true, $nfields, "whole line", field, "");
+                let mut rstore = ManuallyDrop::new([RegexResultReference { pattern_name: pname.clone(), group_index: 1 }]);
+                let mut options = ColumnOptions::new();
+                options.nullable = true;
+                let column = ManuallyDrop::new(ColumnDefinition::with_options(
+                    ColumnParsing::MultiRegex(unsafe { Vec::from_raw_parts(rstore.as_mut_ptr(), 1, 1) }),
+                    "c", ValueType::Array(Box::new(ValueType::Int)), options));
+                let value = ManuallyDrop::new(column.parsing.extract(&column, &input));
+                let e = if $nfields >= 2 { ref_int(len, b0, 0) } else { None };
+                match e {
+                    None => assert!(value.is_null(), "C01 an array whose elements are all NULL is NULL"),
+                    Some(v) => {
+                        let ok = if let Value::Array(ValueType::Int, items) = &*value { items.len() == 1 && v_int(&items[0]) == Some(v) } else { false };
+                        assert!(ok, "C01 array columns are assembled position by position from their listed groups");
+                    }
+                }
+                kani::cover!($nfields < 2 || e.is_some(), "c01 array: element outcome reachable");
+            }
+        }
+    };
+}
+c01_array1_harness!(c01_array1_field, 2);
+c01_array1_harness!(c01_array1_nofield, 1);
+
+// C06 part 1, admission rule of TableDefinition::extract: two INT columns of a table without patterns (each
+// obtains its DEFAULT or NULL: which, is concrete per harness), NOT NULL flags and DEFAULT values symbolic.
+macro_rules! c06_admit_harness {
+    ($name:ident, $d1:expr, $d2:expr) => {
+        extraction_proof! {
+            #[kani::unwind(3)]
+            fn $name() {
+                let (nullable1, nullable2): (bool, bool) = (kani::any(), kani::any());
+                let x1: i64 = kani::any();
+                let x2: i64 = kani::any();
+                let pname = String::new();
+                let mut cstore = ManuallyDrop::new([
+                    column_on(&pname, 1, ValueType::Int, nullable1, if $d1 { Some(Value::Int(x1)) } else { None }),
+                    column_on(&pname, 2, ValueType::Int, nullable2, if $d2 { Some(Value::Int(x2)) } else { None })]);
+                let table = ManuallyDrop::new(TableDefinition {
+                    name: String::new(), patterns: Vec::new(),
+                    columns: unsafe { Vec::from_raw_parts(cstore.as_mut_ptr(), 2, 2) },
+                    fully_qualified_column_names: Vec::new(), any_json_columns: false });
+                let row = ManuallyDrop::new(table.extract(""));
+                let expected = ($d1 || $d2) && (nullable1 || $d1) && (nullable2 || $d2);
+                assert!(row.any_result() == expected, "C06 a line becomes a row iff a column is non-NULL and every NOT NULL column is non-NULL");
+                if expected {
+                    assert!(row.columns.len() == 2, "C06 an admitted row has every column");
+                    assert!(if $d1 { v_int(&row.columns[0]) == Some(x1) } else { row.columns[0].is_null() }, "C06 an admitted row holds each column's value");
+                    assert!(if $d2 { v_int(&row.columns[1]) == Some(x2) } else { row.columns[1].is_null() }, "C06 an admitted row holds each column's value");
+                }
+                kani::cover!(!nullable1 && !nullable2, "c06 admission: two NOT NULL columns reachable");
+            }
+        }
+    };
+}
+c06_admit_harness!(c06_admit_both_values, true, true);
+c06_admit_harness!(c06_admit_first_null, false, true);
+c06_admit_harness!(c06_admit_second_null, true, false);
+c06_admit_harness!(c06_admit_both_null, false, false);
+
 // ------------------------------------------------------------------------------------------------
 // C02: JSON array paths `{[i]}` / `{[i][j]}` on a JSON array document with symbolic leaves.
 fn any_json_leaf() -> (u8, i64, u64, f64, bool, serde_json::Value) {
@@ -334,6 +547,131 @@ extraction_proof! {
         kani::cover!(i0 == 1, "c02 nested: through a number reachable");
     }
 }
+
+// ================================================================================================
+// C02, all-stack: {[i]} on the document [leaf, ""] (leaf kind concrete per harness, payload symbolic; i symbolic
+// in 0..=2: the leaf, a string, absent) and {[0][j]} on [[leaf, true], 5].
+macro_rules! c02_leaf {
+    ($kind:expr, $i:ident, $u:ident, $f:ident, $b:ident) => {
+        match $kind {
+            0 => serde_json::Value::Null,
+            1 => serde_json::Value::Bool($b),
+            2 => serde_json::Value::Number(serde_json::Number::from($i)),
+            3 => serde_json::Value::Number(serde_json::Number::from($u)),
+            4 => serde_json::Value::Number(serde_json::Number::from_f64($f).unwrap()),
+            _ => serde_json::Value::String(String::new()),
+        }
+    };
+}
+
+/// reference typing table: the JSON value typed without coercion; None = NULL
+fn c02_expected_ok(tyk: u8, kind: u8, c: &Value, i: i64, u: u64, f: f64, b: bool) -> bool {
+    match (tyk, kind) {
+        (0, 2) => matches!(c, Value::Int(x) if *x == i),
+        (0, 3) => if u <= i64::MAX as u64 { matches!(c, Value::Int(x) if *x == u as i64) } else { c.is_null() },
+        (1, 2) => matches!(c, Value::Float(x) if x.0 == i as f64),
+        (1, 3) => matches!(c, Value::Float(x) if x.0 == u as f64),
+        (1, 4) => matches!(c, Value::Float(x) if x.0.to_bits() == f.to_bits()),
+        (2, 1) => matches!(c, Value::Bool(x) if *x == b),
+        (3, 5) => matches!(c, Value::String(s) if s.len() == 0),
+        _ => c.is_null(),
+    }
+}
+
+macro_rules! c02_index_harness {
+    ($name:ident, $ty:expr, $tyk:expr, $kind:expr, $has_default:expr) => {
+        extraction_proof! {
+            #[kani::unwind(2)]
+            fn $name() {
+                let i: i64 = kani::any();
+                let u: u64 = kani::any();
+                let f: f64 = kani::any();
+                kani::assume(f.is_finite());
+                let b: bool = kani::any();
+                let index: usize = kani::any();
+                kani::assume(index <= 2);
+                let mut dstore = ManuallyDrop::new([c02_leaf!($kind, i, u, f, b), serde_json::Value::String(String::new())]);
+                let mut estore: ManuallyDrop<[(&String, RegexResult); 0]> = ManuallyDrop::new([]);
+                let input = ManuallyDrop::new(ParsingInput {
+                    regex_results: unsafe { ShimMap::from_raw_entries(estore.as_mut_ptr(), 0) },
+                    json_value: serde_json::Value::Array(unsafe { Vec::from_raw_parts(dstore.as_mut_ptr(), 2, 2) }),
+                });
+                let default = if $has_default { Some(match $tyk { 0 => Value::Int(7), 1 => Value::Float(Float(7.0)), 2 => Value::Bool(true), _ => Value::String(String::from("d")) }) } else { None };
+                let column = ManuallyDrop::new(json_column(JsonAccess::Array { index, inner: None }, $ty, default));
+                let value = ManuallyDrop::new(column.parsing.extract(&column, &input));
+                let c: &Value = &value;
+                if index == 2 {
+                    if $has_default { assert!(!c.is_null(), "C02 DEFAULT when the path is absent"); }
+                    else { assert!(c.is_null(), "C02 NULL when the path is absent"); }
+                } else if index == 1 {
+                    if $tyk == 3 { assert!(matches!(c, Value::String(s) if s.len() == 0), "C02 TEXT only from strings"); }
+                    else { assert!(c.is_null(), "C02 NULL when the JSON value has another type (DEFAULT is not used)"); }
+                } else {
+                    assert!(c02_expected_ok($tyk, $kind, c, i, u, f, b), "C02 the column holds the addressed JSON value typed without coercion, NULL on a type mismatch (DEFAULT is not used)");
+                }
+                kani::cover!(index == 0, "c02: leaf addressed reachable");
+                kani::cover!(index == 2, "c02: absent path reachable");
+            }
+        }
+    };
+}
+c02_index_harness!(c02_int_from_i64, ValueType::Int, 0, 2, false);
+c02_index_harness!(c02_int_from_u64, ValueType::Int, 0, 3, false);
+c02_index_harness!(c02_int_from_f64_default, ValueType::Int, 0, 4, true);
+c02_index_harness!(c02_int_from_null_default, ValueType::Int, 0, 0, true);
+c02_index_harness!(c02_int_from_bool, ValueType::Int, 0, 1, false);
+c02_index_harness!(c02_int_from_string_default, ValueType::Int, 0, 5, true);
+c02_index_harness!(c02_real_from_i64, ValueType::Float, 1, 2, false);
+c02_index_harness!(c02_real_from_u64, ValueType::Float, 1, 3, false);
+c02_index_harness!(c02_real_from_f64, ValueType::Float, 1, 4, false);
+c02_index_harness!(c02_real_from_null_default, ValueType::Float, 1, 0, true);
+c02_index_harness!(c02_real_from_string, ValueType::Float, 1, 5, false);
+c02_index_harness!(c02_bool_from_bool, ValueType::Bool, 2, 1, false);
+c02_index_harness!(c02_bool_from_i64_default, ValueType::Bool, 2, 2, true);
+c02_index_harness!(c02_bool_from_null, ValueType::Bool, 2, 0, false);
+c02_index_harness!(c02_text_from_string, ValueType::String, 3, 5, false);
+c02_index_harness!(c02_text_from_i64_default, ValueType::String, 3, 2, true);
+c02_index_harness!(c02_text_from_null_default, ValueType::String, 3, 0, true);
+
+// nested path {[i0][i1]} => INT on [[leaf, true], 5]: only [0][0] addresses the leaf
+macro_rules! c02_nested_harness {
+    ($name:ident, $kind:expr) => {
+        extraction_proof! {
+            #[kani::unwind(2)]
+            fn $name() {
+                let i: i64 = kani::any();
+                let u: u64 = kani::any();
+                let f: f64 = kani::any();
+                kani::assume(f.is_finite());
+                let b: bool = kani::any();
+                let i0: usize = kani::any();
+                let i1: usize = kani::any();
+                kani::assume(i0 <= 2 && i1 <= 2);
+                let mut istore = ManuallyDrop::new([c02_leaf!($kind, i, u, f, b), serde_json::Value::Bool(true)]);
+                let mut dstore = ManuallyDrop::new([serde_json::Value::Array(unsafe { Vec::from_raw_parts(istore.as_mut_ptr(), 2, 2) }),
+                                                    serde_json::Value::Number(serde_json::Number::from(5i64))]);
+                let mut estore: ManuallyDrop<[(&String, RegexResult); 0]> = ManuallyDrop::new([]);
+                let input = ManuallyDrop::new(ParsingInput {
+                    regex_results: unsafe { ShimMap::from_raw_entries(estore.as_mut_ptr(), 0) },
+                    json_value: serde_json::Value::Array(unsafe { Vec::from_raw_parts(dstore.as_mut_ptr(), 2, 2) }),
+                });
+                let mut inner_store = ManuallyDrop::new(JsonAccess::Array { index: i1, inner: None });
+                let inner: Box<JsonAccess> = unsafe { Box::from_raw(&mut *inner_store as *mut JsonAccess) };
+                let column = ManuallyDrop::new(json_column(JsonAccess::Array { index: i0, inner: Some(inner) }, ValueType::Int, None));
+                let value = ManuallyDrop::new(column.parsing.extract(&column, &input));
+                if i0 == 0 && i1 == 0 {
+                    assert!(c02_expected_ok(0, $kind, &value, i, u, f, b), "C02 a nested path addresses exactly that element");
+                } else {
+                    assert!(value.is_null(), "C02 NULL when the path is absent or the value has another type");
+                }
+                kani::cover!(i0 == 0 && i1 == 0, "c02 nested: hit reachable");
+                kani::cover!(i0 == 1, "c02 nested: through a number reachable");
+            }
+        }
+    };
+}
+c02_nested_harness!(c02_nested_int_from_i64, 2);
+c02_nested_harness!(c02_nested_int_from_null, 0);
 
 #[cfg(test)]
 #[path = "/verif/.cache/playback/data_model.rs"]
